@@ -355,6 +355,7 @@ impl Read for CountingSource {
 }
 
 //@ obligation: U1.binstr.len
+//@ cost: heavy
 //@ props: C01 C04 C13
 //@ fns: RbxReadExt::read_binary_string
 //@ kind: bounded
